@@ -6,6 +6,8 @@ import (
 	"time"
 
 	corev1 "k8s.io/api/core/v1"
+	metav1 "k8s.io/apimachinery/pkg/apis/meta/v1"
+	"k8s.io/apimachinery/pkg/labels"
 
 	v1 "github.com/DataDog/extendeddaemonset/api/v1alpha1"
 
@@ -184,7 +186,7 @@ func (w *World) Converge(ns, name string, pendingChanges int) ConvergeResult {
 		for _, n := range kit.Nodes(w.S) {
 			if oracle.Eligible(n, &ee.Spec.Template.Spec) {
 				targeted++
-				if ee.Spec.Strategy.Canary.NodeSelector == nil || selectorMatches(ee.Spec.Strategy.Canary.NodeSelector.MatchLabels, n.Labels) {
+				if canarySelectorMatches(ee.Spec.Strategy.Canary.NodeSelector, n.Labels) {
 					valid++
 				}
 			}
@@ -482,9 +484,21 @@ func (w *World) RetentionPhase(ns, name string) {
 	}
 }
 
+// canarySelectorMatches: the node's labels satisfy the canary node selector (absent or unusable: every node).
+func canarySelectorMatches(ls *metav1.LabelSelector, lbls map[string]string) bool {
+	if ls == nil {
+		return true
+	}
+	sel, err := metav1.LabelSelectorAsSelector(ls)
+	if err != nil {
+		return true
+	}
+	return sel.Matches(labels.Set(lbls))
+}
+
 func selectorMatches(sel, lbls map[string]string) bool {
 	for k, v := range sel {
-		if lbls[k] != v {
+		if lv, has := lbls[k]; !has || lv != v {
 			return false
 		}
 	}
